@@ -57,6 +57,7 @@ func excludesSomeNode(p *v1.Pod, nodes map[string]*v1.Node) bool {
 
 // CheckConstraints is the C04 oracle on one cycle.
 func CheckConstraints(w *World, rec *CycleRecord) ([]Finding, ConstraintFacts) {
+	w = rec.Effective(w)
 	var out []Finding
 	var facts ConstraintFacts
 	nodes := rec.Before.Nodes
@@ -188,7 +189,9 @@ func CheckConstraints(w *World, rec *CycleRecord) ([]Finding, ConstraintFacts) {
 				if nodeHasKey && !(found || firstOfGroup) {
 					// was the term satisfied only by a pod this very cycle evicts (or moves away)?
 					for _, other := range placed {
-						if other == self || !other.leftInCy || other.pod.Namespace != p.Namespace || other.wasOn == "" {
+						// (the pod's own releasing entry counts too: a victim that matches its own term and is put
+						// back by the decision that evicted it)
+						if !other.leftInCy || other.pod.Namespace != p.Namespace || other.wasOn == "" {
 							continue
 						}
 						a, ok1 := domainOf(c.Node, term.TopologyKey)
